@@ -11,12 +11,16 @@ package frr
 // The harness holds no oracle; spec/DebounceTrace.tla judges the recorded histories.
 
 import (
+	"bytes"
 	"fmt"
 	"os"
 	"path/filepath"
 	"regexp"
+	"runtime"
 	"strconv"
+	"sync/atomic"
 	"testing"
+	"time"
 
 	"github.com/go-kit/log"
 	"go.universe.tf/metallb/internal/logging"
@@ -59,11 +63,26 @@ func vdebMake(env *verifkit.DebEnv) verifkit.DebTarget {
 // ---- session manager wiring
 
 type vdebSMTarget struct {
-	sm *sessionManager
+	sm   *sessionManager
+	run  string
+	base int // debouncer goroutines that were alive before this run's session manager was created
 }
 
+// vdebAlive counts the goroutines running the loop of debouncer().  The reload action of the session
+// manager ends in a package variable, so a debouncer that is still inside a (slow) reload when its
+// run is over would report into the next run: Close waits until it is gone.
+func vdebAlive() int {
+	buf := make([]byte, 4<<20)
+	n := runtime.Stack(buf, true)
+	return bytes.Count(buf[:n], []byte("internal/bgp/frr.debouncer.func1("))
+}
+
+var vdebLingering atomic.Int64
+
+// the run's name is part of every configuration: a reload action that finds another run's
+// configuration in the file was not caused by this run (the reload action is a package variable)
 func (t *vdebSMTarget) Submit(c int) {
-	if err := t.sm.SyncExtraInfo(fmt.Sprintf("! verif-config-%d", c)); err != nil {
+	if err := t.sm.SyncExtraInfo(fmt.Sprintf("! verif-config-%s-%d.", t.run, c)); err != nil {
 		panic(err)
 	}
 }
@@ -72,9 +91,16 @@ func (t *vdebSMTarget) Close(clean bool) {
 	if clean {
 		close(t.sm.reloadConfig)
 	}
+	for t0 := time.Now(); vdebAlive() > t.base; time.Sleep(2 * time.Millisecond) {
+		if time.Since(t0) > 3*time.Second {
+			vdebLingering.Add(1)
+			break
+		}
+	}
 }
 
-var vdebMarker = regexp.MustCompile(`verif-config-(\d+)`)
+var vdebMarker = regexp.MustCompile(`verif-config-(\S+)-(\d+)\.`)
+var vdebForeign atomic.Int64
 
 func vdebMakeSM(dir string) func(env *verifkit.DebEnv) verifkit.DebTarget {
 	return func(env *verifkit.DebEnv) verifkit.DebTarget {
@@ -83,16 +109,22 @@ func vdebMakeSM(dir string) func(env *verifkit.DebEnv) verifkit.DebTarget {
 		debounceTimeout = env.ReloadInterval()
 		failureTimeout = env.RetryInterval()
 		reloadConfig = func() error {
-			c := 0
+			c, run := 0, env.Script.ID
 			if b, err := os.ReadFile(file); err == nil {
 				if m := vdebMarker.FindSubmatch(b); m != nil {
-					c, _ = strconv.Atoi(string(m[1]))
+					run = string(m[1])
+					c, _ = strconv.Atoi(string(m[2]))
 				}
+			}
+			if run != env.Script.ID || env.Over() {
+				vdebForeign.Add(1)
+				return nil
 			}
 			return env.Body(c)
 		}
+		base := vdebAlive()
 		sm := NewSessionManager(log.NewNopLogger(), logging.LevelInfo).(*sessionManager)
-		return &vdebSMTarget{sm: sm}
+		return &vdebSMTarget{sm: sm, run: env.Script.ID, base: base}
 	}
 }
 
@@ -115,5 +147,7 @@ func TestVerifDebounce(t *testing.T) {
 	oldReload, oldDeb, oldFail := reloadConfig, debounceTimeout, failureTimeout
 	verifkit.DebRunAll(sm, out, 1, func(verifkit.DebScript) func(env *verifkit.DebEnv) verifkit.DebTarget { return vdebMakeSM(dir) })
 	reloadConfig, debounceTimeout, failureTimeout = oldReload, oldDeb, oldFail
-	t.Logf("verif: %d debouncer runs, %d session-manager runs, %d lines", len(deb), len(sm), out.N)
+	_ = os.WriteFile(os.Getenv("VERIF_OBS")+".meta", []byte(fmt.Sprintf("{\"foreign_reload_calls\": %d, \"lingering_debouncers\": %d}\n", vdebForeign.Load(), vdebLingering.Load())), 0o644)
+	t.Logf("verif: %d debouncer runs, %d session-manager runs, %d lines, %d reload calls that belonged to no current run",
+		len(deb), len(sm), out.N, vdebForeign.Load())
 }
